@@ -89,9 +89,11 @@ class OFDM:
             msg = "Number of used subcarriers must be a multiple of 2"
             raise ValueError(msg)
 
-        self.fft_size = fft_size
-        self.cp_size = cp_size
-        self.num_used_subcarriers = num_used_subcarriers
+        # Store plain Python integers: with (unsigned) numpy integers the
+        # subcarrier numbers computed from these values could wrap around
+        self.fft_size = int(fft_size)
+        self.cp_size = int(cp_size)
+        self.num_used_subcarriers = int(num_used_subcarriers)
 
     def _calc_zeropad(self, input_data_size: int) -> Tuple[int, int]:
         """
